@@ -4,7 +4,7 @@ import json, os, subprocess
 
 V = os.path.dirname(os.path.abspath(__file__))
 
-NOTE = "Real CoreRAD code (config.Parse, plugins, Advertiser/Monitor, schedgroup, errgroup, Server, metrics, HTTP handler, ndp codec) on the testing/synctest fake clock; the kernel side of every seam (socket, sysctl, rtnetlink via hook H1, link events via hook H2, signals, systemd socket) is a stub; Dialer.dial() is replaced through Dialer.DialFunc. Interleavings between two seam calls are not explored. Sampling, not enumeration, unless stated."
+NOTE = "Real CoreRAD code (config.Parse, plugins, Advertiser/Monitor, schedgroup, errgroup, Server, metrics, HTTP handler, ndp codec) on the testing/synctest fake clock; the kernel side of every seam (socket, sysctl, rtnetlink via hook H1, link events via hook H2, signals, systemd socket) is a stub; the real Dialer.dial() runs above that stub (its calls into package net and ndp.Listen are substituted in a build-time copy; if that copy does not compile against the tree, dial() is stubbed as a whole and the run says so). Map iteration order, select choice and context cancellation order are drawn from the plan's seed; half of the plans additionally perturb same-instant goroutine order at AST-inserted yield points (internal/netstate under an explicit scheduler for C19). Sampling, not enumeration, unless stated."
 TECH = "deterministic simulation with fault injection: seeded plans, seam-gated schedules on a fake clock, history/reference-model oracle, minimised replay"
 
 def C(text, ref, cat="exploration", note=NOTE, tech=TECH):
